@@ -322,7 +322,10 @@ def class_factory(id_pack, methods):
                 # (PEP 562) with this peer-chosen name - module code, which may import - and anything that is not a
                 # module has no business answering here
                 _class = vars(_module).get(_class_name) if isinstance(_module, types.ModuleType) else None
-                if _class is not None and hasattr(_class, '__class__'):
+                # only a class can be the proxy's `__class__`; `type(_class)` asks the object nothing, whereas
+                # `hasattr(_class, '__class__')` / `isinstance(_class, type)` would read an attribute of whatever
+                # module-level object the peer chose to name - and that object would then be stored in the proxy class
+                if issubclass(type(_class), type):
                     class_descriptor = NetrefClass(_class)
                 break
     ns['__class__'] = class_descriptor
